@@ -15,7 +15,15 @@ import (
 	"time"
 )
 
-const Root = "/verif"
+// Root is the directory evidence, replays and known findings live in (the directory of ./run).
+var Root = rootDir()
+
+func rootDir() string {
+	if d := os.Getenv("VERIF_ROOT"); d != "" {
+		return d
+	}
+	return "/verif"
+}
 
 // Finding is one entry of /verif/known_findings.json.
 type Finding struct {
